@@ -81,6 +81,11 @@ func nameLattice(c *vf.Ctx) []string {
 		}
 	}
 	add([]byte("FRED"))
+	// names whose own bytes look like a notation for something else: the nbtstat "<20>" suffix notation, a
+	// dot, a scope-like tail - to the codec they are 16 bytes like any other
+	for _, n := range []string{"AB<20>", "PRN<1b>", "FILESRV<20>", "<00>", "X<1B>", "WORKGROUP<1e>", "A.B", "NAME.SCOPE", "<>", "12345678901<20>"} {
+		add([]byte(n))
+	}
 	add([]byte("WORKGROUP      \x1e"))
 	add([]byte("\x01\x02__MSBROWSE__\x02\x01"))
 	return out
